@@ -81,6 +81,8 @@ fn alpha(_cfg: &Cfg) -> Vec<Op> {
         t("a"),
         t("bcd"),
         t(" "),
+        t("漢"),      // double-width character (one cell in avt)
+        t("\u{301}"), // zero-width combining mark (one cell in avt)
         c(crlf()),
         c(Lf),
         c(Cr),
@@ -137,7 +139,7 @@ pub fn run(ctx: &Ctx) -> Report {
     let n = rep.counters.get("seed-bfs+resize-chains.resizes_checked").copied().unwrap_or(0);
     rep.evaluations += n;
     rep.traces_validated = n;
-    rep.rule = "seed states = all states reachable by the editing alphabet (texts, CRLF, cursor moves, EL/ECH/DCH/ICH/IL/DL/ED1, SGR, RI, DECSC) up to the depth bound on unlimited-scrollback primary screens; from every seed every chain of <=2 resizes over the 10 sizes 1x1..4x3; each single resize is judged by the relational oracle on logical lines (rows joined on wrap marks, cells incl. pens, trailing default blanks ignored); non-trivial = resizes of a non-empty buffer".into();
+    rep.rule = "seed states = all states reachable by the editing alphabet (texts incl. a double-width and a zero-width character, CRLF, cursor moves, EL/ECH/DCH/ICH/IL/DL/ED1, SGR, RI, DECSC) up to the depth bound on unlimited-scrollback primary screens; from every seed every chain of <=2 resizes over the 10 sizes 1x1..4x3; each single resize is judged by the relational oracle on logical lines (rows joined on wrap marks, cells incl. pens, trailing default blanks ignored); non-trivial = resizes of a non-empty buffer".into();
     rep.assumptions = vec![
         "primary screen, unlimited scrollback (as the statement requires)".into(),
         "'on a character of the text' = cursor offset inside the trimmed logical line".into(),
